@@ -38,6 +38,7 @@ def parseOp (w : World Nat Nat) (s : String) : Option (Op Nat) :=
     if h.startsWith "c" then i.map .center
     else if h.startsWith "w" then i.map .centerW
     else if h.startsWith "X" then i.bind (fun i => (w.trajs[i]?).map (fun t => .setXyz i ((List.range t.rows.length).map (· + 1000))))
+    else if h.startsWith "Y" then i.bind (fun i => (w.trajs[i]?).map (fun t => .assignSame i ((List.range t.rows.length).map (· + 2000))))
     else none
   | [h, a] =>
     let i := (h.drop 1).toString.toNat?
